@@ -13,3 +13,4 @@ PROP = dict(
     assumptions=TRUST + ['a non-owning view is never read after the harness destroyed its source (caller obligation)'],
     bins=[rc('C11_arrays', 'harness/C11_arrays.cpp', None)],
 )
+PROP['rule'] += ' Round-3 extension: elements are compared by BIT PATTERN (fill values include -0.0 and denormals; every third case runs with FTZ/DAZ set in the calling thread); FixedArray histories whose allocation fails on request (element type with its own operator new[]): a failed construction or assignment leaves every array and view as it was.'
